@@ -45,9 +45,10 @@ def completed(ps: List[Dict[str, Any]], vals: Dict[str, Any]) -> Dict[str, Any]:
                     names |= {q["n"] for q in hit[0]["ps"]}
                 out[n] = {kk: vv for kk, vv in v.items() if kk in names}
         elif k == "CODED-CONST":
-            out[n] = codec.atom_py(p["cv"], p["dct"])
+            # (a constant that was supplied must come back as supplied: a different value cannot be accepted)
+            out[n] = vals[n] if vals.get(n) is not None else codec.atom_py(p["cv"], p["dct"])
         elif k == "PHYS-CONST":
-            out[n] = codec.dop_py(p["dop"], p["cv"])
+            out[n] = vals[n] if vals.get(n) is not None else codec.dop_py(p["dop"], p["cv"])
         elif k == "TABLE-STRUCT":
             out[n] = _completed_dop(p["dop"], vals.get(n))
         elif k == "TABLE-KEY":
